@@ -29,7 +29,7 @@ Proof.
   destruct (build_order i (a_time_var a) (a_time_order a)) as [t_ord|e1]; [|reflexivity].
   destruct (build_order i (a_vector_var a) (a_vector_order a)) as [v_ord|e2]; [|reflexivity].
   destruct (a_src_dirs a) as [|d ds]; [reflexivity|].
-  destruct (dir_loop _ _ _ _ _ _ _ _ _) as [dd e]. reflexivity.
+  destruct (dir_loop _ _ _ _ _ _ _ _ _ _) as [dd e]. reflexivity.
 Qed.
 
 Lemma nitool_no_state {nii V} (env : nenv nii V) g a : fst (nitool_run env g a) = g.
@@ -101,19 +101,19 @@ Section Fields.
     (if a_dump_meta a then exists p, meta_path (fo_path f) = Ok p /\ fo_json_path f = Some p
      else fo_json_path f = None).
 
-  Lemma group_loop_fields : forall groups d gen out_idx gidx files e,
-    group_loop a i excl incl t_ord v_ord d gen out_idx gidx groups = (files, e) ->
+  Lemma group_loop_fields : forall groups d gen out_idx gidx files e gen',
+    group_loop a i excl incl t_ord v_ord d gen out_idx gidx groups = (files, e, gen') ->
     forall f, In f files -> file_ok d f.
   Proof.
-    induction groups as [|gi rest IH]; intros d gen out_idx gidx files e H f Hf; cbn [group_loop] in H.
-    - injection H as <- <-. destruct Hf.
-    - destruct (i_stack i _) as [u|er]; [|injection H as <- <-; destruct Hf].
-      destruct (natural_name a gi) as [nn|er]; [|injection H as <- <-; destruct Hf].
-      destruct (unique_name gen out_idx (sanitize_path_comp nn)) as [out|er]; [|injection H as <- <-; destruct Hf].
-      destruct (i_nifti i _ _) as [u'|er]; [|injection H as <- <-; destruct Hf].
-      destruct (if a_dump_meta a then _ else _) as [jp|er] eqn:Ej; [|injection H as <- <-; destruct Hf].
-      destruct (group_loop a i excl incl t_ord v_ord d (out :: gen) (S out_idx) (S gidx) rest) as [fs e'] eqn:E.
-      injection H as <- <-. destruct Hf as [<- | Hf]; [|exact (IH _ _ _ _ _ _ E f Hf)].
+    induction groups as [|gi rest IH]; intros d gen out_idx gidx files e gen' H f Hf; cbn [group_loop] in H.
+    - injection H as <- <- <-. destruct Hf.
+    - destruct (i_stack i _) as [u|er]; [|injection H as <- <- <-; destruct Hf].
+      destruct (natural_name a gi) as [nn|er]; [|injection H as <- <- <-; destruct Hf].
+      destruct (unique_name gen out_idx (sanitize_path_comp nn)) as [out|er]; [|injection H as <- <- <-; destruct Hf].
+      destruct (i_nifti i _ _) as [u'|er]; [|injection H as <- <- <-; destruct Hf].
+      destruct (if a_dump_meta a then _ else _) as [jp|er] eqn:Ej; [|injection H as <- <- <-; destruct Hf].
+      destruct (group_loop a i excl incl t_ord v_ord d (out :: gen) (S out_idx) (S gidx) rest) as [[fs e'] g1] eqn:E.
+      injection H as <- <- <-. destruct Hf as [<- | Hf]; [|exact (IH _ _ _ _ _ _ _ E f Hf)].
       unfold file_ok. cbn [fo_stack fo_nifti fo_name fo_path fo_json_path fo_strip_ext sc_excl sc_incl
                            sc_time_order sc_vector_order sc_warn sc_dir nc_voxel_order nc_embed].
       repeat (split; [reflexivity|]).
@@ -122,8 +122,8 @@ Section Fields.
       + injection Ej as <-. reflexivity.
   Qed.
 
-  Lemma dir_loop_fields : forall dirs group_by x ds e,
-    dir_loop a i excl incl t_ord v_ord group_by x dirs = (ds, e) ->
+  Lemma dir_loop_fields : forall dirs group_by x shared ds e,
+    dir_loop a i excl incl t_ord v_ord group_by x shared dirs = (ds, e) ->
     forall d, In d ds ->
       exists src, In src dirs /\ do_glob d = glob_pattern a src /\
         gc_paths (do_group_call d) = i_glob i (do_glob d) /\
@@ -131,10 +131,10 @@ Section Fields.
         gc_force (do_group_call d) = a_force_read a /\ gc_warn (do_group_call d) = negb (a_strict a) /\
         forall f, In f (do_files d) -> file_ok src f.
   Proof.
-    induction dirs as [|d0 rest IH]; intros group_by x ds e H d Hd; cbn [dir_loop] in H.
+    induction dirs as [|d0 rest IH]; intros group_by x shared ds e H d Hd; cbn [dir_loop] in H.
     - injection H as <- <-. destruct Hd.
     - destruct (i_groups i _) as [groups|er]; [|injection H as <- <-; destruct Hd].
-      destruct (group_loop a i excl incl t_ord v_ord d0 [] 0 0 groups) as [files e0] eqn:E.
+      destruct (group_loop a i excl incl t_ord v_ord d0 _ 0 0 groups) as [[files e0] g1] eqn:E.
       assert (Hthis : forall dd, dd = {| do_glob := glob_pattern a d0;
                                          do_group_call := {| gc_paths := i_glob i (glob_pattern a d0); gc_group_by := group_by;
                                                              gc_extractor := x; gc_force := a_force_read a;
@@ -146,12 +146,12 @@ Section Fields.
                   gc_force (do_group_call dd) = a_force_read a /\ gc_warn (do_group_call dd) = negb (a_strict a) /\
                   forall f, In f (do_files dd) -> file_ok src f).
       { intros dd ->. exists d0. cbn [do_glob do_group_call do_files gc_paths gc_group_by gc_extractor gc_force gc_warn].
-        split; [left; reflexivity|]. repeat (split; [reflexivity|]). exact (group_loop_fields _ _ _ _ _ _ _ E). }
+        split; [left; reflexivity|]. repeat (split; [reflexivity|]). exact (group_loop_fields _ _ _ _ _ _ _ _ E). }
       destruct e0 as [er|].
       + injection H as <- <-. destruct Hd as [<- | []]. apply Hthis. reflexivity.
-      + destruct (dir_loop a i excl incl t_ord v_ord group_by x rest) as [ds' e'] eqn:E'.
+      + destruct (dir_loop a i excl incl t_ord v_ord group_by x _ rest) as [ds' e'] eqn:E'.
         injection H as <- <-. destruct Hd as [<- | Hd]; [apply Hthis; reflexivity|].
-        destruct (IH _ _ _ _ E' d Hd) as [src [Hin Hrest]]. exists src. split; [right; exact Hin | exact Hrest].
+        destruct (IH _ _ _ _ _ E' d Hd) as [src [Hin Hrest]]. exists src. split; [right; exact Hin | exact Hrest].
   Qed.
 End Fields.
 
@@ -170,8 +170,8 @@ Proof.
   destruct (build_order i (a_vector_var a) (a_vector_order a)) as [v_ord|e2] eqn:Ev;
     [|cbn [snd]; intros H; injection H as <- <-; intros []].
   destruct (a_src_dirs a) as [|d0 dirs] eqn:Ed; [discriminate|].
-  destruct (dir_loop _ _ _ _ _ _ _ _ _) as [dd e'] eqn:El. cbn [snd]. intros H Hd Hf. injection H as -> ->.
-  destruct (dir_loop_fields _ _ _ _ _ _ _ _ _ _ _ El d Hd) as [src [Hsrc [Hg [Hp [Hgb [Hx [Hfo [Hw Hfiles]]]]]]]].
+  destruct (dir_loop _ _ _ _ _ _ _ _ _ _) as [dd e'] eqn:El. cbn [snd]. intros H Hd Hf. injection H as -> ->.
+  destruct (dir_loop_fields _ _ _ _ _ _ _ _ _ _ _ _ El d Hd) as [src [Hsrc [Hg [Hp [Hgb [Hx [Hfo [Hw Hfiles]]]]]]]].
   destruct (Hfiles f Hf) as [F1 [F2 [F3 [F4 [F5 [F6 [F7 [F8 [F9 [F10 F11]]]]]]]]]].
   unfold args_spec. cbv zeta.
   split; [exact F1|]. split; [exact F2|].
@@ -209,7 +209,7 @@ Lemma dcmstack_run_inv g a i ds e :
     build_order i (a_time_var a) (a_time_order a) = Ok t_ord /\
     build_order i (a_vector_var a) (a_vector_order a) = Ok v_ord /\
     dir_loop a i (g_excl g ++ a_exclude_regex a) (g_incl g ++ a_include_regex a) t_ord v_ord
-             (match a_group_by a with Some s => split_on 44%N s | None => g_group_keys g end) x (a_src_dirs a) = (ds, e).
+             (match a_group_by a with Some s => split_on 44%N s | None => g_group_keys g end) x [] (a_src_dirs a) = (ds, e).
 Proof.
   unfold dcmstack_main.
   destruct (a_version a); [discriminate|].
@@ -223,7 +223,7 @@ Proof.
   destruct (build_order i (a_vector_var a) (a_vector_order a)) as [v_ord|e2] eqn:Ev;
     [|cbn [snd]; intros H; injection H as <- <-; left; reflexivity].
   destruct (a_src_dirs a) as [|d0 dirs] eqn:Ed; [discriminate|].
-  destruct (dir_loop _ _ _ _ _ _ _ _ _) as [dd e'] eqn:El. cbn [snd]. intros H. injection H as -> ->.
+  destruct (dir_loop _ _ _ _ _ _ _ _ _ _) as [dd e'] eqn:El. cbn [snd]. intros H. injection H as -> ->.
   right. exists x, t_ord, v_ord. repeat split. exact El.
 Qed.
 
@@ -232,7 +232,7 @@ Lemma dcmstack_names_distinct g a i ds e d :
   snd (dcmstack_main g a i) = ORun ds e -> In d ds -> NoDup (map fo_name (do_files d)).
 Proof.
   intros H Hd. destruct (dcmstack_run_inv _ _ _ _ _ H) as [-> | [x [t_ord [v_ord [_ [_ [_ El]]]]]]]; [destruct Hd|].
-  exact (ProofsNames.dir_loop_names _ _ _ _ _ _ _ _ _ _ _ El d Hd).
+  exact (ProofsNames.dir_loop_names _ _ _ _ _ _ _ _ _ _ _ _ El d Hd).
 Qed.
 
 (** ... and so are the paths, when the extension does not begin with '/' *)
@@ -274,30 +274,30 @@ Section Paths.
   Variable t_ord v_ord : option ordering.
   Hypothesis ext_ok : starts_with_slash (a_output_ext a) = false.
 
-  Lemma group_loop_no_lead_slash : forall groups d gen out_idx gidx files e,
-    group_loop a i excl incl t_ord v_ord d gen out_idx gidx groups = (files, e) ->
+  Lemma group_loop_no_lead_slash : forall groups d gen out_idx gidx files e gen',
+    group_loop a i excl incl t_ord v_ord d gen out_idx gidx groups = (files, e, gen') ->
     forall f, In f files -> starts_with_slash (fo_name f) = false.
   Proof.
-    induction groups as [|gi rest IH]; intros d gen out_idx gidx files e H f Hf; cbn [group_loop] in H.
-    - injection H as <- <-. destruct Hf.
-    - destruct (i_stack i _) as [u|er]; [|injection H as <- <-; destruct Hf].
-      destruct (natural_name a gi) as [nn|er]; [|injection H as <- <-; destruct Hf].
-      destruct (unique_name gen out_idx (sanitize_path_comp nn)) as [out|er] eqn:Eu; [|injection H as <- <-; destruct Hf].
-      destruct (i_nifti i _ _) as [u'|er]; [|injection H as <- <-; destruct Hf].
-      destruct (if a_dump_meta a then _ else _) as [jp|er]; [|injection H as <- <-; destruct Hf].
-      destruct (group_loop a i excl incl t_ord v_ord d (out :: gen) (S out_idx) (S gidx) rest) as [fs e'] eqn:E.
-      injection H as <- <-. destruct Hf as [<- | Hf]; [|exact (IH _ _ _ _ _ _ E f Hf)].
+    induction groups as [|gi rest IH]; intros d gen out_idx gidx files e gen' H f Hf; cbn [group_loop] in H.
+    - injection H as <- <- <-. destruct Hf.
+    - destruct (i_stack i _) as [u|er]; [|injection H as <- <- <-; destruct Hf].
+      destruct (natural_name a gi) as [nn|er]; [|injection H as <- <- <-; destruct Hf].
+      destruct (unique_name gen out_idx (sanitize_path_comp nn)) as [out|er] eqn:Eu; [|injection H as <- <- <-; destruct Hf].
+      destruct (i_nifti i _ _) as [u'|er]; [|injection H as <- <- <-; destruct Hf].
+      destruct (if a_dump_meta a then _ else _) as [jp|er]; [|injection H as <- <- <-; destruct Hf].
+      destruct (group_loop a i excl incl t_ord v_ord d (out :: gen) (S out_idx) (S gidx) rest) as [[fs e'] g1] eqn:E.
+      injection H as <- <- <-. destruct Hf as [<- | Hf]; [|exact (IH _ _ _ _ _ _ _ E f Hf)].
       cbn [fo_name]. rewrite starts_with_slash_app. pose proof (unique_no_lead_slash _ _ _ _ Eu) as Ho.
       destruct out; [exact ext_ok | exact Ho].
   Qed.
 
-  Lemma group_loop_paths_distinct groups d files e :
-    group_loop a i excl incl t_ord v_ord d [] 0 0 groups = (files, e) -> NoDup (map fo_path files).
+  Lemma group_loop_paths_distinct groups d gen files e gen' :
+    group_loop a i excl incl t_ord v_ord d gen 0 0 groups = (files, e, gen') -> NoDup (map fo_path files).
   Proof.
     intros H.
-    pose proof (ProofsNames.group_loop_names_distinct _ _ _ _ _ _ _ _ _ _ H) as Hnd.
-    pose proof (group_loop_fields _ _ _ _ _ _ _ _ _ _ _ _ _ H) as Hf.
-    pose proof (group_loop_no_lead_slash _ _ _ _ _ _ _ H) as Hs.
+    pose proof (ProofsNames.group_loop_names_distinct _ _ _ _ _ _ _ _ _ _ _ _ H) as Hnd.
+    pose proof (group_loop_fields _ _ _ _ _ _ _ _ _ _ _ _ _ _ H) as Hf.
+    pose proof (group_loop_no_lead_slash _ _ _ _ _ _ _ _ H) as Hs.
     assert (Hm : map fo_path files =
                  map (fun f => path_join (match truthy (a_dest_dir a) with Some dd => dd | None => d end) (fo_name f)) files).
     { apply map_ext_in. intros f Hin. destruct (Hf f Hin) as [_ [_ [_ [_ [_ [_ [_ [_ [_ [Hp _]]]]]]]]]]. exact Hp. }
@@ -307,20 +307,20 @@ Section Paths.
     apply path_join_inj; [exact (Hs fx Hfx) | exact (Hs fy Hfy)].
   Qed.
 
-  Lemma dir_loop_paths_distinct : forall dirs group_by x ds e,
-    dir_loop a i excl incl t_ord v_ord group_by x dirs = (ds, e) ->
+  Lemma dir_loop_paths_distinct : forall dirs group_by x shared ds e,
+    dir_loop a i excl incl t_ord v_ord group_by x shared dirs = (ds, e) ->
     forall d, In d ds -> NoDup (map fo_path (do_files d)).
   Proof.
-    induction dirs as [|d0 rest IH]; intros group_by x ds e H d Hd; cbn [dir_loop] in H.
+    induction dirs as [|d0 rest IH]; intros group_by x shared ds e H d Hd; cbn [dir_loop] in H.
     - injection H as <- <-. destruct Hd.
     - destruct (i_groups i _) as [groups|er]; [|injection H as <- <-; destruct Hd].
-      destruct (group_loop a i excl incl t_ord v_ord d0 [] 0 0 groups) as [files e0] eqn:E.
+      destruct (group_loop a i excl incl t_ord v_ord d0 _ 0 0 groups) as [[files e0] g1] eqn:E.
       destruct e0 as [er|].
-      + injection H as <- <-. destruct Hd as [<- | []]. cbn [do_files]. exact (group_loop_paths_distinct _ _ _ _ E).
-      + destruct (dir_loop a i excl incl t_ord v_ord group_by x rest) as [ds' e'] eqn:E'.
+      + injection H as <- <-. destruct Hd as [<- | []]. cbn [do_files]. exact (group_loop_paths_distinct _ _ _ _ _ _ E).
+      + destruct (dir_loop a i excl incl t_ord v_ord group_by x _ rest) as [ds' e'] eqn:E'.
         injection H as <- <-. destruct Hd as [<- | Hd].
-        * cbn [do_files]. exact (group_loop_paths_distinct _ _ _ _ E).
-        * exact (IH _ _ _ _ E' d Hd).
+        * cbn [do_files]. exact (group_loop_paths_distinct _ _ _ _ _ _ E).
+        * exact (IH _ _ _ _ _ E' d Hd).
   Qed.
 End Paths.
 
@@ -329,7 +329,7 @@ Lemma dcmstack_paths_distinct g a i ds e d :
   snd (dcmstack_main g a i) = ORun ds e -> In d ds -> NoDup (map fo_path (do_files d)).
 Proof.
   intros Hext H Hd. destruct (dcmstack_run_inv _ _ _ _ _ H) as [-> | [x [t_ord [v_ord [_ [_ [_ El]]]]]]]; [destruct Hd|].
-  exact (dir_loop_paths_distinct _ _ _ _ _ _ Hext _ _ _ _ _ El d Hd).
+  exact (dir_loop_paths_distinct _ _ _ _ _ _ Hext _ _ _ _ _ _ El d Hd).
 Qed.
 
 (** as many files as groups when nothing raised *)
@@ -338,16 +338,226 @@ Lemma dcmstack_one_per_group g a i ds d :
   exists groups, i_groups i (do_group_call d) = Ok groups /\ length (do_files d) = length groups.
 Proof.
   intros H Hd. destruct (dcmstack_run_inv _ _ _ _ _ H) as [-> | [x [t_ord [v_ord [_ [_ [_ El]]]]]]]; [destruct Hd|].
-  clear H. revert El d Hd. generalize (a_src_dirs a) as dl.
+  clear H. revert El d Hd. generalize (a_src_dirs a) as dl. generalize (@nil str) as shared.
   generalize (match a_group_by a with Some s => split_on 44%N s | None => g_group_keys g end) as gb.
-  intros gb dl. revert ds. induction dl as [|d0 rest IH]; intros ds El d Hd; cbn [dir_loop] in El.
+  intros gb shared dl. revert shared ds. induction dl as [|d0 rest IH]; intros shared ds El d Hd; cbn [dir_loop] in El.
   - injection El as <-. destruct Hd.
   - destruct (i_groups i _) as [groups|er] eqn:Eg; [|discriminate].
-    destruct (group_loop _ _ _ _ _ _ d0 [] 0 0 groups) as [files e0] eqn:E.
+    destruct (group_loop _ _ _ _ _ _ d0 _ 0 0 groups) as [[files e0] g1] eqn:E.
     destruct e0 as [er|]; [discriminate|].
-    destruct (dir_loop _ _ _ _ _ _ gb x rest) as [ds' e'] eqn:E'.
+    destruct (dir_loop _ _ _ _ _ _ gb x _ rest) as [ds' e'] eqn:E'.
     injection El as <- ->. destruct Hd as [<- | Hd].
     + exists groups. cbn [do_group_call do_files]. split; [exact Eg|].
-      destruct (ProofsNames.group_loop_names _ _ _ _ _ _ _ _ _ _ _ _ _ E) as [outs [_ [_ [_ Hl]]]]. exact (Hl eq_refl).
-    + exact (IH _ eq_refl d Hd).
+      destruct (ProofsNames.group_loop_names _ _ _ _ _ _ _ _ _ _ _ _ _ _ E) as [outs [_ [_ [_ [Hl _]]]]]. exact (Hl eq_refl).
+    + exact (IH _ _ E' d Hd).
+Qed.
+
+(** ------------------------------------------------------------------ uniqueness over the whole invocation *)
+
+Definition nonslash (c : N) : bool := negb (N.eqb c slash).
+Definition slash_free (s : str) : bool := forallb nonslash s.
+
+(** the directory prefix every name of a source directory is appended to by [path_join] *)
+Definition dir_prefix (d : str) : str := path_join d [].
+
+Lemma sfx_parts_slash_free : slash_free sfx_prefix && slash_free sfx_tail = true.
+Proof. vm_compute. reflexivity. Qed.
+
+Lemma slash_free_app x y : slash_free (x ++ y) = slash_free x && slash_free y.
+Proof. apply forallb_app. Qed.
+
+Lemma dec_of_N_slash_free n : slash_free (dec_of_N n) = true.
+Proof.
+  destruct (PyNumFacts.dec_of_N_spec n) as [ds [H1 [_ [H3 _]]]]. rewrite H1. clear H1.
+  unfold slash_free. apply forallb_forall. intros c Hc.
+  unfold PyNumFacts.all_dig in H3. rewrite forallb_forall in H3. specialize (H3 c Hc).
+  destruct (dec_val c) eqn:E; [|discriminate]. apply PyNumFacts.dec_val_digit, PyNumFacts.is_digit_cases in E.
+  repeat (destruct E as [-> | E]; [reflexivity|]). subst c. reflexivity.
+Qed.
+
+Lemma fmt_nat_slash_free z w k : slash_free (fmt_nat z w k) = true.
+Proof.
+  unfold fmt_nat, pad_left. rewrite slash_free_app, dec_of_N_slash_free, andb_true_r.
+  unfold slash_free. apply forallb_forall. intros c Hc. apply repeat_spec in Hc. subst c. destruct z; reflexivity.
+Qed.
+
+Lemma suffix_slash_free k : slash_free (suffix k) = true.
+Proof.
+  unfold suffix. pose proof sfx_parts_slash_free as H. apply andb_true_iff in H as [H1 H2].
+  rewrite !slash_free_app, H1, H2, fmt_nat_slash_free. reflexivity.
+Qed.
+
+Lemma unique_slash_free gen out_idx nn out :
+  unique_name gen out_idx (sanitize_path_comp nn) = Ok out -> slash_free out = true.
+Proof.
+  intros H. destruct (ProofsNames.unique_name_ok gen out_idx (sanitize_path_comp nn)) as [out' [H1 [_ H2]]].
+  rewrite H in H1. injection H1 as <-.
+  destruct H2 as [[_ ->] | [_ [k [-> _]]]]; [exact (sanitize_no_slash nn)|].
+  rewrite slash_free_app, suffix_slash_free. rewrite andb_true_r. exact (sanitize_no_slash nn).
+Qed.
+
+Lemma slash_free_no_lead s : slash_free s = true -> starts_with_slash s = false.
+Proof.
+  destruct s as [|c r]; [reflexivity|]. cbn [slash_free forallb starts_with_slash]. unfold nonslash.
+  intros H. apply andb_true_iff in H as [H _]. destruct (N.eqb c slash); [discriminate | reflexivity].
+Qed.
+
+Lemma path_join_prefix d x : starts_with_slash x = false -> path_join d x = dir_prefix d ++ x.
+Proof.
+  intros Hx. unfold dir_prefix, path_join. rewrite Hx. cbn [starts_with_slash].
+  destruct (negb (nonempty d) || ends_with_slash d).
+  - rewrite app_nil_r. reflexivity.
+  - change (d ++ slash :: x) with (d ++ [slash] ++ x). rewrite app_assoc. reflexivity.
+Qed.
+
+Lemma dir_prefix_shape d : dir_prefix d = [] \/ ends_with_slash (dir_prefix d) = true.
+Proof.
+  unfold dir_prefix, path_join. cbn [starts_with_slash].
+  destruct d as [|c r]; [left; reflexivity|]. cbn [nonempty negb orb].
+  destruct (ends_with_slash (c :: r)) eqn:E; right.
+  - rewrite app_nil_r. exact E.
+  - unfold ends_with_slash. rewrite rev_app_distr. cbn [rev app]. apply N.eqb_refl.
+Qed.
+
+Lemma drop_while_app_all f a b : forallb f a = true -> drop_while f (a ++ b) = drop_while f b.
+Proof.
+  induction a as [|c r IH]; cbn [app forallb drop_while]; [reflexivity|].
+  intros H. apply andb_true_iff in H as [Hc Hr]. rewrite Hc. exact (IH Hr).
+Qed.
+
+Lemma forallb_rev {A} (f : A -> bool) l : forallb f l = true -> forallb f (rev l) = true.
+Proof. rewrite !forallb_forall. intros H x Hx. apply H. apply in_rev. exact Hx. Qed.
+
+(** a prefix (empty or ending in '/') followed by a slash-free name can be split in one way only *)
+Lemma prefix_name_split P x :
+  (P = [] \/ ends_with_slash P = true) -> slash_free x = true ->
+  rev (drop_while nonslash (rev (P ++ x))) = P.
+Proof.
+  intros HP Hx. rewrite rev_app_distr, (drop_while_app_all nonslash (rev x) (rev P) (forallb_rev _ _ Hx)).
+  destruct HP as [-> | HP]; [reflexivity|].
+  unfold ends_with_slash in HP. destruct (rev P) as [|c r] eqn:E; [discriminate|].
+  cbn [drop_while]. unfold nonslash. rewrite HP. cbn [negb]. rewrite <- E. apply rev_involutive.
+Qed.
+
+Lemma prefix_name_inj d1 d2 x y :
+  slash_free x = true -> slash_free y = true -> dir_prefix d1 ++ x = dir_prefix d2 ++ y -> dir_prefix d1 = dir_prefix d2.
+Proof.
+  intros Hx Hy H.
+  rewrite <- (prefix_name_split (dir_prefix d1) x (dir_prefix_shape d1) Hx).
+  rewrite <- (prefix_name_split (dir_prefix d2) y (dir_prefix_shape d2) Hy). rewrite H. reflexivity.
+Qed.
+
+Lemma NoDup_app_left {A} (l l' : list A) : NoDup (l ++ l') -> NoDup l.
+Proof.
+  induction l as [|x r IH]; cbn [app]; intros H; [constructor|].
+  inversion H as [|y t Hnotin Hnd]. subst. constructor; [|exact (IH Hnd)].
+  intros Hin. apply Hnotin. apply in_or_app. left. exact Hin.
+Qed.
+
+Section Global.
+  Variable a : args.
+  Variable i : inputs.
+  Variable excl incl : list str.
+  Variable t_ord v_ord : option ordering.
+  Hypothesis ext_ok : slash_free (a_output_ext a) = true.
+
+  Lemma group_loop_slash_free : forall groups d gen out_idx gidx files e gen',
+    group_loop a i excl incl t_ord v_ord d gen out_idx gidx groups = (files, e, gen') ->
+    forall f, In f files -> slash_free (fo_name f) = true.
+  Proof.
+    induction groups as [|gi rest IH]; intros d gen out_idx gidx files e gen' H f Hf; cbn [group_loop] in H.
+    - injection H as <- <- <-. destruct Hf.
+    - destruct (i_stack i _) as [u|er]; [|injection H as <- <- <-; destruct Hf].
+      destruct (natural_name a gi) as [nn|er]; [|injection H as <- <- <-; destruct Hf].
+      destruct (unique_name gen out_idx (sanitize_path_comp nn)) as [out|er] eqn:Eu; [|injection H as <- <- <-; destruct Hf].
+      destruct (i_nifti i _ _) as [u'|er]; [|injection H as <- <- <-; destruct Hf].
+      destruct (if a_dump_meta a then _ else _) as [jp|er]; [|injection H as <- <- <-; destruct Hf].
+      destruct (group_loop a i excl incl t_ord v_ord d (out :: gen) (S out_idx) (S gidx) rest) as [[fs e'] g1] eqn:E.
+      injection H as <- <- <-. destruct Hf as [<- | Hf]; [|exact (IH _ _ _ _ _ _ _ E f Hf)].
+      cbn [fo_name]. rewrite slash_free_app, (unique_slash_free _ _ _ _ Eu), ext_ok. reflexivity.
+  Qed.
+
+  (** every directory record belongs to its own source directory, in order; every path is the
+      directory prefix (of the destination, or of that source directory) followed by a slash-free name *)
+  Definition dir_rel (src : str) (d : dir_out) : Prop :=
+    forall f, In f (do_files d) ->
+      slash_free (fo_name f) = true /\
+      fo_path f = dir_prefix (match truthy (a_dest_dir a) with Some dd => dd | None => src end) ++ fo_name f.
+
+  Lemma dir_loop_rel : forall dirs group_by x shared ds e,
+    dir_loop a i excl incl t_ord v_ord group_by x shared dirs = (ds, e) ->
+    exists srcs tl, dirs = srcs ++ tl /\ Forall2 dir_rel srcs ds.
+  Proof.
+    induction dirs as [|d0 rest IH]; intros group_by x shared ds e H; cbn [dir_loop] in H.
+    - injection H as <- <-. exists [], []. split; [reflexivity | constructor].
+    - destruct (i_groups i _) as [groups|er]; [|injection H as <- <-; exists [], (d0 :: rest); split; [reflexivity | constructor]].
+      destruct (group_loop a i excl incl t_ord v_ord d0 _ 0 0 groups) as [[files e0] g1] eqn:E.
+      assert (Hrel : dir_rel d0 {| do_glob := glob_pattern a d0;
+                                   do_group_call := {| gc_paths := i_glob i (glob_pattern a d0); gc_group_by := group_by;
+                                                       gc_extractor := x; gc_force := a_force_read a;
+                                                       gc_warn := negb (a_strict a) |};
+                                   do_files := files |}).
+      { intros f Hf. cbn [do_files] in Hf.
+        pose proof (group_loop_slash_free _ _ _ _ _ _ _ _ E f Hf) as Hs. split; [exact Hs|].
+        destruct (group_loop_fields _ _ _ _ _ _ _ _ _ _ _ _ _ _ E f Hf) as [_ [_ [_ [_ [_ [_ [_ [_ [_ [Hp _]]]]]]]]]].
+        rewrite Hp. apply path_join_prefix. exact (slash_free_no_lead _ Hs). }
+      destruct e0 as [er|].
+      + injection H as <- <-. exists [d0], rest. split; [reflexivity|]. constructor; [exact Hrel | constructor].
+      + destruct (dir_loop a i excl incl t_ord v_ord group_by x _ rest) as [ds' e'] eqn:E'.
+        injection H as <- <-. destruct (IH _ _ _ _ _ E') as [srcs [tl [-> HF]]].
+        exists (d0 :: srcs), tl. split; [reflexivity|]. constructor; assumption.
+  Qed.
+End Global.
+
+(** with --dest-dir: ALL output names of one invocation are pairwise distinct *)
+Lemma dcmstack_names_global g a i ds e :
+  truthy (a_dest_dir a) <> None ->
+  snd (dcmstack_main g a i) = ORun ds e ->
+  NoDup (concat (map (fun d => map fo_name (do_files d)) ds)).
+Proof.
+  intros Hdest H. destruct (dcmstack_run_inv _ _ _ _ _ H) as [-> | [x [t_ord [v_ord [_ [_ [_ El]]]]]]]; [constructor|].
+  assert (Hsh : shares_names a = true).
+  { unfold shares_names. rewrite ProofsNames.names_shared_dest_true. destruct (truthy (a_dest_dir a)); [reflexivity | congruence]. }
+  destruct (ProofsNames.dir_loop_names_shared _ _ _ _ _ _ Hsh _ _ _ _ _ _ El) as [outs [Hm [Hnd _]]].
+  rewrite Hm. apply ProofsNames.NoDup_map_inj; [|exact Hnd]. intros p q _ _ Hpq. exact (app_inv_tail _ _ _ Hpq).
+Qed.
+
+(** all output PATHS of one invocation are pairwise distinct: in a common destination because the
+    names are, otherwise because the source directories are different directories *)
+Lemma dcmstack_paths_global g a i ds e :
+  slash_free (a_output_ext a) = true ->
+  (truthy (a_dest_dir a) = None -> NoDup (map dir_prefix (a_src_dirs a))) ->
+  snd (dcmstack_main g a i) = ORun ds e ->
+  NoDup (concat (map (fun d => map fo_path (do_files d)) ds)).
+Proof.
+  intros Hext Hdirs H.
+  pose proof H as Hrun.
+  destruct (dcmstack_run_inv _ _ _ _ _ H) as [-> | [x [t_ord [v_ord [_ [_ [_ El]]]]]]]; [constructor|].
+  destruct (dir_loop_rel a i _ _ t_ord v_ord Hext _ _ _ _ _ _ El) as [srcs [tl [Hsplit HF]]].
+  destruct (truthy (a_dest_dir a)) as [dd|] eqn:Ed.
+  - (* common destination: paths = prefix dd ++ name, names distinct *)
+    assert (Hnames : NoDup (concat (map (fun d => map fo_name (do_files d)) ds))).
+    { apply (dcmstack_names_global g a i ds e); [rewrite Ed; discriminate | exact Hrun]. }
+    assert (Hmap : concat (map (fun d => map fo_path (do_files d)) ds) =
+                   map (fun n => dir_prefix dd ++ n) (concat (map (fun d => map fo_name (do_files d)) ds))).
+    { clear -HF Ed. induction HF as [|src d srcs' ds' Hr HF IH]; [reflexivity|].
+      cbn [map concat]. rewrite map_app, IH. f_equal. rewrite map_map. apply map_ext_in.
+      intros f Hf. destruct (Hr f Hf) as [_ Hp]. rewrite Ed in Hp. exact Hp. }
+    rewrite Hmap. apply ProofsNames.NoDup_map_inj; [|exact Hnames]. intros p q _ _ Hpq. exact (app_inv_head _ _ _ Hpq).
+  - (* no common destination: each directory's paths are distinct, and different directories have different prefixes *)
+    specialize (Hdirs eq_refl). rewrite Hsplit, map_app in Hdirs. apply NoDup_app_left in Hdirs.
+    assert (Hper : forall d, In d ds -> NoDup (map fo_path (do_files d))).
+    { intros d Hd. apply (dcmstack_paths_distinct g a i ds e d); [exact (slash_free_no_lead _ Hext) | exact Hrun | exact Hd]. }
+    clear -HF Hdirs Hper Ed. induction HF as [|src d srcs' ds' Hr HF IH]; [constructor|].
+    cbn [map concat]. cbn [map] in Hdirs. inversion Hdirs as [|p l Hnotin Hnd]. subst.
+    apply ProofsNames.NoDup_app_disjoint.
+    + apply Hper. left. reflexivity.
+    + apply IH; [exact Hnd | intros d' Hd'; apply Hper; right; exact Hd'].
+    + intros p Hp1 Hp2. apply in_map_iff in Hp1 as [f [<- Hf]]. destruct (Hr f Hf) as [Hs1 Hp1].
+      rewrite Ed in Hp1. apply Hnotin. clear -HF Hp2 Hs1 Hp1 Ed.
+      induction HF as [|src' d' srcs'' ds'' Hr' HF' IH']; [destruct Hp2|].
+      cbn [map concat] in Hp2. apply in_app_or in Hp2 as [Hp2 | Hp2].
+      * apply in_map_iff in Hp2 as [f' [Heq Hf']]. destruct (Hr' f' Hf') as [Hs2 Hp2]. left.
+        rewrite Ed in Hp2. rewrite Hp1, Hp2 in Heq. exact (prefix_name_inj _ _ _ _ Hs2 Hs1 Heq).
+      * right. exact (IH' Hp2).
 Qed.
